@@ -21,8 +21,10 @@ import (
 	"io/fs"
 	"path"
 	"path/filepath"
+	"runtime"
 	"sort"
 	"strings"
+	"sync"
 	"testing"
 
 	"github.com/google/osv-scalibr/artifact/image/require"
@@ -129,7 +131,7 @@ func c17GraphLayers(prefix string, states []int) (l0, l1 []tarimg.Entry) {
 			l0 = append(l0, tarimg.D(p, 0o755), tarimg.S(p+"/in_"+strings.ReplaceAll(p, "/", "_"), "/unrelated"))
 		case s == stMissing:
 		case s == stDeleted:
-			l0 = append(l0, tarimg.F(p, "deleted:"+p, 0o644))
+			l0 = append(l0, tarimg.S(p, "/unrelated") /* what it was does not matter; a symlink costs the loader no disk write */)
 			l1 = append(l1, tarimg.W(p))
 		default:
 			j := (s - stLinkBase) / 2
@@ -328,10 +330,11 @@ func c17Identity(fi fs.FileInfo, n *overlay.Node) error {
 }
 
 // c17CheckGraph checks all entries of one graph in the intermediate and the final view.
-func c17CheckGraph(chains []scalibrfs.FS, prefix string, states []int, depth int, col *ev.Collector, tl *c17Tally) error {
+// strict makes the known-finding classes fail as well (replays of witnesses).
+func c17CheckGraph(chains []scalibrfs.FS, prefix string, states []int, depth int, col *ev.Collector, tl *c17Tally, strict bool) error {
 	l0, l1 := c17GraphLayers(prefix, states)
 	views := overlay.Views(c17Image(l0, l1).Layers)
-	strictOpen, strictBoundary := !col.IsKnown(clsOpenWhiteout), !col.IsKnown(clsBoundary)
+	strictOpen, strictBoundary := strict || !col.IsKnown(clsOpenWhiteout), strict || !col.IsKnown(clsBoundary)
 	for _, vi := range []int{1, 2} {
 		for i := range states {
 			p := "/" + c17EntryPath(prefix, i)
@@ -407,7 +410,9 @@ func c17StateNames(states []int) []string {
 	return out
 }
 
-// propC17 decides one (graph, depth) pair in an image of its own (replay entry point).
+// propC17 decides one (graph, depth) pair in an image of its own. It is the replay entry
+// point (witnesses of known findings, --replay) and therefore strict: the known-finding
+// classes are not tolerated here.
 func propC17(col *ev.Collector) func(cs c17Case) (ev.Outcome, error) {
 	return func(cs c17Case) (ev.Outcome, error) {
 		if cs.Leg == "escape" {
@@ -427,7 +432,7 @@ func propC17(col *ev.Collector) func(cs c17Case) (ev.Outcome, error) {
 			return ev.Outcome{}, fmt.Errorf("expected 3 chain layers, got %d", len(ld.Chains))
 		}
 		var tl c17Tally
-		cerr := c17CheckGraph(c17Chains(ld), "g0", states, cs.Depth, col, &tl)
+		cerr := c17CheckGraph(c17Chains(ld), "g0", states, cs.Depth, col, &tl, true)
 		if cerr == nil {
 			_, cerr = c17CheckListings(c17Chains(ld), overlay.Views(c17Image(l0, l1).Layers))
 		}
@@ -451,9 +456,23 @@ func (s *splitmix64) next() uint64 {
 
 const c17Batch = 250
 
+// c17Result is one evaluated (graph, depth) pair of a batch.
+type c17Result struct {
+	cs  c17Case
+	o   ev.Outcome
+	err error
+}
+
+// c17Job is one batch: graphs of one size that share an image.
+type c17Job struct {
+	n     int
+	codes []int64
+}
+
 // c17RunBatch loads one image holding the given graphs once per depth and checks them.
-// It returns false when the enumeration has to stop (violation cap).
-func c17RunBatch(e *ev.Enumerator, n int, codes []int64, depths []int) bool {
+func c17RunBatch(col *ev.Collector, job c17Job, depths []int) []c17Result {
+	n, codes := job.n, job.codes
+	var out []c17Result
 	var l0, l1 []tarimg.Entry
 	states := make([][]int, len(codes))
 	for k, code := range codes {
@@ -467,11 +486,11 @@ func c17RunBatch(e *ev.Enumerator, n int, codes []int64, depths []int) bool {
 		ld, err := loadImage(img, &require.FileRequirerAll{}, d)
 		if err != nil || len(ld.Chains) != 3 {
 			ld.Close()
-			cs := c17Case{Leg: "graph", N: n, Code: codes[0], Depth: d}
 			if err == nil {
 				err = fmt.Errorf("expected 3 chain layers, got %d", len(ld.Chains))
 			}
-			return e.Report(cs, ev.Outcome{}, fmt.Errorf("FromV1Image fails on a batch of %d graphs: %w", len(codes), err))
+			out = append(out, c17Result{cs: c17Case{Leg: "graph", N: n, Code: codes[0], Depth: d}, err: fmt.Errorf("FromV1Image fails on a batch of %d graphs: %w", len(codes), err)})
+			continue
 		}
 		chains := c17Chains(ld)
 		badGraph := -1
@@ -479,13 +498,13 @@ func c17RunBatch(e *ev.Enumerator, n int, codes []int64, depths []int) bool {
 		if lerr != nil {
 			badGraph = 0
 			var i int
-			if _, serr := fmt.Sscanf(badName, "g%d_e%d", &badGraph, &i); serr != nil || badGraph >= len(codes) {
+			if _, serr := fmt.Sscanf(badName, "g%d_e%d", &badGraph, &i); serr != nil || badGraph < 0 || badGraph >= len(codes) {
 				badGraph = 0
 			}
 		}
 		for k, code := range codes {
 			var tl c17Tally
-			cerr := c17CheckGraph(chains, fmt.Sprintf("g%d", k), states[k], d, e.C, &tl)
+			cerr := c17CheckGraph(chains, fmt.Sprintf("g%d", k), states[k], d, col, &tl, false)
 			if cerr == nil && k == badGraph {
 				cerr = lerr
 			}
@@ -494,14 +513,77 @@ func c17RunBatch(e *ev.Enumerator, n int, codes []int64, depths []int) bool {
 				cs.States = c17StateNames(states[k])
 				cerr = fmt.Errorf("graph %v: %w", cs.States, cerr)
 			}
-			if !e.Report(cs, c17Outcome(n, code, d, states[k], &tl), cerr) {
-				ld.Close()
-				return false
-			}
+			out = append(out, c17Result{cs: cs, o: c17Outcome(n, code, d, states[k], &tl), err: cerr})
 		}
 		ld.Close()
 	}
-	return true
+	return out
+}
+
+// c17RunJobs runs the batches on a few goroutines of this one process and reports the
+// results in batch order, so that the sequence of recorded cases does not depend on timing.
+func c17RunJobs(e *ev.Enumerator, jobs []c17Job, depths []int, workers int) bool {
+	if workers < 1 {
+		workers = 1
+	}
+	type slot struct {
+		done chan struct{}
+		res  []c17Result
+	}
+	slots := make([]*slot, len(jobs))
+	for i := range slots {
+		slots[i] = &slot{done: make(chan struct{})}
+	}
+	next := make(chan int)
+	stop := make(chan struct{})
+	var wg sync.WaitGroup
+	for w := 0; w < workers; w++ {
+		wg.Add(1)
+		go func() {
+			defer wg.Done()
+			for i := range next {
+				slots[i].res = c17RunBatch(e.C, jobs[i], depths)
+				close(slots[i].done)
+			}
+		}()
+	}
+	go func() {
+		defer close(next)
+		for i := range jobs {
+			select {
+			case next <- i:
+			case <-stop:
+				return
+			}
+		}
+	}()
+	ok := true
+report:
+	for i := range jobs {
+		<-slots[i].done
+		for _, r := range slots[i].res {
+			if !e.Report(r.cs, r.o, r.err) {
+				ok = false
+				break report
+			}
+		}
+		slots[i].res = nil
+	}
+	close(stop)
+	wg.Wait()
+	return ok
+}
+
+func c17Workers() int {
+	_, shards := ev.Shard()
+	w := runtime.NumCPU() / shards
+	if w > 8 {
+		w = 8
+	}
+	if w < 1 {
+		w = 1
+	}
+	return ev.IntEnv("VERIF_C17_WORKERS", w)
 }
 
 func TestC17_graphs(t *testing.T) {
@@ -527,7 +609,9 @@ func TestC17_graphs(t *testing.T) {
 	if ev.Thorough() {
 		maxExhaustive = ev.IntEnv("VERIF_C17_MAXN", 5)
 	}
+	var jobs []c17Job
 	batchNo := 0
+	var graphs int64
 	for n := 1; n <= maxExhaustive; n++ {
 		total := c17Count(n)
 		for start := int64(0); start < total; start += c17Batch {
@@ -540,12 +624,12 @@ func TestC17_graphs(t *testing.T) {
 			for c := start; c < start+c17Batch && c < total; c++ {
 				codes = append(codes, c)
 			}
-			if !c17RunBatch(e, n, codes, depths) {
-				return
-			}
+			graphs += int64(len(codes))
+			jobs = append(jobs, c17Job{n, codes})
 		}
 	}
 	col.SetExtra("sizes_exhaustive", fmt.Sprintf("n=1..%d x MaxSymlinkDepth 0..6, all (4+2n)^n graphs", maxExhaustive))
+	col.AddExtra("graphs_enumerated", graphs)
 	if !ev.Thorough() {
 		// quick tier: a deterministic sample of n = 5 on top of the complete n <= 4
 		sample := ev.IntEnv("VERIF_C17_SAMPLE5", 3000)
@@ -567,11 +651,12 @@ func TestC17_graphs(t *testing.T) {
 			if end > len(codes) {
 				end = len(codes)
 			}
-			if !c17RunBatch(e, 5, codes[start:end], depths) {
-				return
-			}
+			jobs = append(jobs, c17Job{5, codes[start:end]})
 		}
-		col.SetExtra("sampled_n5_graphs", sample)
+		col.AddExtra("graphs_sampled_n5", int64(sample))
+	}
+	if !c17RunJobs(e, jobs, depths, c17Workers()) {
+		return
 	}
 	col.SetExhaustive(true)
 	completed = true
